@@ -39,7 +39,9 @@ for l in sys.stdin:
 ")
   if [ -n "$ids" ]; then
     echo "### serial re-run of non-passing stable tests" | tee -a $log
-    (cd $wt && PYTHONPATH=$wt/src timeout 1800 /venv/bin/python -m pytest -q -p no:cacheprovider $ids 2>&1 | tail -8 | tee -a $log)
+    # ids may contain spaces (`[Open API 3.0]`): one argument per line
+    mapfile -t idarr <<< "$ids"
+    (cd $wt && PYTHONPATH=$wt/src timeout 1800 /venv/bin/python -m pytest -q -p no:cacheprovider "${idarr[@]}" 2>&1 | tail -8 | tee -a $log)
   fi
 fi
 git -C /repo worktree remove --force $wt
